@@ -375,6 +375,7 @@ func (m *Machine) convert(from, to types.Type, v Value) Value {
 	if _, ok := to.Underlying().(*types.Basic); ok {
 		if s, ok := v.(Slice); ok { // []byte -> string
 			n := int(m.conc(s.Len, 4096))
+			m.ghostAlloc(BV(64, uint64(n)))
 			r := Str{B: make([]*T, n)}
 			for i := 0; i < n; i++ {
 				r.B[i] = s.BA.Read(Bin("bvadd", s.Off, BV(64, uint64(i))))
@@ -392,6 +393,7 @@ func (m *Machine) convert(from, to types.Type, v Value) Value {
 	if _, ok := to.Underlying().(*types.Slice); ok {
 		if s, ok := v.(Str); ok { // string -> []byte
 			ba := newZeroBA(len(s.B))
+			m.ghostAlloc(BV(64, uint64(len(s.B))))
 			for i, b := range s.B {
 				m.baStore(ba, BV(64, uint64(i)), b)
 			}
@@ -701,39 +703,7 @@ func (m *Machine) builtin(fr *Frame, name string, args []Value, c *ssa.CallCommo
 	case "append":
 		s := args[0].(Slice)
 		et := c.Args[0].Type().Underlying().(*types.Slice).Elem()
-		var addLen *T
-		switch a := args[1].(type) {
-		case Slice:
-			addLen = a.Len
-		case Str:
-			addLen = BV(64, uint64(len(a.B)))
-		}
-		newLen := Bin("bvadd", s.Len, addLen)
-		fits := Cmp("bvule", newLen, s.Cap)
-		if (s.BA != nil || s.AL != nil) && m.decide(fits) {
-			r := Slice{BA: s.BA, AL: s.AL, Off: s.Off, Len: newLen, Cap: s.Cap}
-			m.copyInto(r, s.Len, args[1])
-			return r
-		}
-		// reallocate
-		nl := int(m.conc(newLen, 4096))
-		ncap := nl*2 + 8
-		r := Slice{Off: BV(64, 0), Len: BV(64, uint64(nl)), Cap: BV(64, uint64(ncap))}
-		if isByte(et) {
-			r.BA = newZeroBA(ncap)
-			if s.BA != nil {
-				m.baCopy(r.BA, BV(64, 0), s.Len, s.BA, s.Off)
-			}
-		} else {
-			r.AL = newLoc(types.NewArray(et, int64(ncap)))
-			ol := int(m.conc(s.Len, 4096))
-			oo := int(m.conc(s.Off, 4096))
-			for k := 0; k < ol; k++ {
-				m.store(r.AL.sub[k], m.load(s.AL.sub[oo+k]))
-			}
-		}
-		m.copyInto(r, s.Len, args[1])
-		return r
+		return m.appendValue(s, args[1], isByte(et), et)
 	case "recover":
 		// only effective when called directly by a deferred function while panicking
 		if m.pan != nil && fr.isDefer {
@@ -774,6 +744,69 @@ func (m *Machine) builtin(fr *Frame, name string, args []Value, c *ssa.CallCommo
 		return r
 	}
 	panic(unsupported{"builtin " + name})
+}
+
+// appendValue implements append(s, src...) ; et is the element type (nil: bytes).
+func (m *Machine) appendValue(s Slice, src Value, byteElems bool, ets ...types.Type) Value {
+	var addLen *T
+	switch a := src.(type) {
+	case Slice:
+		addLen = a.Len
+	case Str:
+		addLen = BV(64, uint64(len(a.B)))
+	}
+	newLen := Bin("bvadd", s.Len, addLen)
+	fits := Cmp("bvule", newLen, s.Cap)
+	if (s.BA != nil || s.AL != nil) && m.decide(fits) {
+		r := Slice{BA: s.BA, AL: s.AL, Off: s.Off, Len: newLen, Cap: s.Cap}
+		m.copyInto(r, s.Len, src)
+		return r
+	}
+	// reallocate: Go grows to at most max(2*cap, newLen) (+ size-class rounding); ghost-count 2*newLen+64 elements
+	if byteElems {
+		if newLen.IsC {
+			nl := int(newLen.C)
+			ncap := nl*2 + 8
+			r := Slice{Off: BV(64, 0), Len: newLen, Cap: BV(64, uint64(ncap))}
+			m.ghostAlloc(BV(64, uint64(ncap)))
+			r.BA = newZeroBA(ncap)
+			if s.BA != nil {
+				m.baCopy(r.BA, BV(64, 0), s.Len, s.BA, s.Off)
+			}
+			m.copyInto(r, s.Len, src)
+			return r
+		}
+		ncap := Bin("bvadd", Bin("bvshl", newLen, BV(64, 1)), BV(64, 8))
+		m.ghostAlloc(ncap)
+		r := Slice{Off: BV(64, 0), Len: newLen, Cap: ncap, BA: newZeroBA(0)}
+		if s.BA != nil {
+			m.baCopy(r.BA, BV(64, 0), s.Len, s.BA, s.Off)
+		}
+		m.copyInto(r, s.Len, src)
+		return r
+	}
+	et := ets[0]
+	nl := int(m.conc(newLen, 4096))
+	ncap := nl*2 + 8
+	r := Slice{Off: BV(64, 0), Len: BV(64, uint64(nl)), Cap: BV(64, uint64(ncap))}
+	m.ghostAlloc(BV(64, uint64(ncap)*uint64(sizeofType(et))))
+	r.AL = newLoc(types.NewArray(et, int64(ncap)))
+	if s.AL != nil {
+		ol := int(m.conc(s.Len, 4096))
+		oo := int(m.conc(s.Off, 4096))
+		for k := 0; k < ol; k++ {
+			m.store(r.AL.sub[k], m.load(s.AL.sub[oo+k]))
+		}
+	}
+	m.copyInto(r, s.Len, src)
+	return r
+}
+
+var stdSizes = types.SizesFor("gc", "amd64")
+
+func sizeofType(t types.Type) int64 {
+	defer func() { recover() }()
+	return stdSizes.Sizeof(t)
 }
 
 func (m *Machine) copyInto(dst Slice, at *T, src Value) {
